@@ -26,6 +26,7 @@ type ReplayFile struct {
 	Site     string         `json:"site"`
 	Stack    []string       `json:"stack,omitempty"`
 	NativeObservable bool   `json:"native_observable"`
+	Dirty            bool   `json:"reads_uninitialised_memory,omitempty"`
 }
 
 type KnownFinding struct {
@@ -253,9 +254,14 @@ func (nb *nativeBuilder) confirm(rf *ReplayFile, path string) (bool, bool, strin
 			}
 		}
 		last = fmt.Sprintf("native outcome=%s fails=%v panic=%q", o.Outcome, o.Fails, o.Panic)
-		if o.Outcome == "abort" {
+		if o.Outcome == "abort" && len(o.Fails) == 0 {
 			break
 		}
+	}
+	if rf.Dirty {
+		// the failing condition reads memory that dirtmake/mcache hand out uninitialised; a native run
+		// only reproduces it when the heap happens to hold garbage there
+		return false, false, "depends on the contents of uninitialised allocator memory (native run: " + last + ")"
 	}
 	return false, true, last
 }
@@ -381,7 +387,7 @@ func finishRun(prop, tier string, seed int64, specs []*HarnessSpec, units []unit
 		seen[key] = true
 		spec := specByFn[v.Harness]
 		rf := &ReplayFile{Property: prop, Harness: v.Harness, Pkg: spec.Pkg, Params: unitParams[fmt.Sprintf("%p", v)], Draws: v.Draws,
-			Kind: v.Kind, Msg: v.Msg, Site: v.Site, Stack: v.Stack, Expect: v.Kind + ": " + v.Msg}
+			Kind: v.Kind, Msg: v.Msg, Site: v.Site, Stack: v.Stack, Expect: v.Kind + ": " + v.Msg, Dirty: v.Dirty}
 		b, _ := json.MarshalIndent(rf, "", " ")
 		h := sha1.Sum(b)
 		dir := filepath.Join(verifRoot(), "replays", prop)
